@@ -9,7 +9,9 @@ ALL_ZONES = ["UTC", "America/Los_Angeles", "Australia/Lord_Howe",
 PROFILES = {
     # -- fault-free, exact model -------------------------------------------
     "C01": profile(scan=0.5, reads_after=(1, 4), zones=ALL_ZONES,
-                   flush_vary=True, long_strings=0.03,
+                   flush_vary=True, long_strings=0.03, compact=0.3,
+                   numbers=["small", "small", "boundary"],
+                   alphabets=["plain", "plain", "reserved"],
                    mix={"read": 8, "getter": 0, "bulk": 0.15}),
     "C02": profile(modes=["r+", "r+", "r+", "w+"], zones=ALL_ZONES,
                    flush_vary=True, alphabets=["plain", "plain", "hostile"],
@@ -25,8 +27,8 @@ PROFILES = {
                    zones=ALL_ZONES, flush_vary=True,
                    len=(3, 60)),
     "C07": profile(scan=0.5, read_vs_getter=0.1, zones=ALL_ZONES,
-                   flush_vary=True,
-                   alphabets=["plain", "hostile", "hostile"],
+                   flush_vary=True, compact=0.3,
+                   alphabets=["plain", "hostile", "hostile", "reserved"],
                    mix={"read": 0, "getter": 8}, reads_after=(1, 4)),
     "C08": profile(time="rich", zones=ALL_ZONES,
                    update_args=["time"], scan=0.4,
@@ -48,7 +50,7 @@ PROFILES = {
                    alphabets=["plain", "hostile", "wide", "latin1",
                               "reserved", "fuzz"],
                    numbers=["small", "small", "boundary", "fuzz"],
-                   long_strings=0.06,
+                   long_strings=0.06, other_db=0.25,
                    mix={"cursor": 3, "read": 2, "getter": 1,
                         "lifecycle": 1.2, "bulk": 0.15}, reads_after=(0, 2)),
     "C05": profile(storages=["csv"], compact=0.5, known_triggers=0.04,
@@ -72,7 +74,8 @@ PROFILES = {
                    long_strings=0.05,
                    mix={"insert": 8, "insert_multiple": 4, "cursor": 4,
                         "read": 2, "getter": 1, "update": 0.7,
-                        "remove": 0.7, "lifecycle": 0.7, "bulk": 0.2},
+                        "remove": 0.7, "lifecycle": 0.7, "bulk": 0.2,
+                        "invalid": 1.0},
                    reads_after=(0, 1), max_points=25),
     # -- collaborator faults -----------------------------------------------------
     "C11": profile(mix={"invalid": 5, "illtyped": 1.5, "read": 3,
